@@ -2,7 +2,9 @@
    and the two places where the statement would be false without its guard. *)
 From Coq Require Import List NArith ZArith QArith Bool String.
 From Qryn Require Import model.TqSql model.Traceql model.TraceqlPlan model.TraceqlSem model.TraceqlCase
-     proofs.TraceqlAnalyzeProofs proofs.TraceqlEvalProofs proofs.TraceqlSelectorProofs.
+     proofs.TraceqlAnalyzeProofs proofs.TraceqlEvalProofs proofs.TraceqlSelectorProofs
+     model.TraceqlPortions proofs.TraceqlPortionsProofs.
+From Coq Require Import Sorted Lia.
 Import ListNotations.
 Open Scope string_scope.
 
@@ -70,3 +72,32 @@ Example rounding_gap :
   let rows := [R "x" "0.00000005" "t1" "s1" 5 1] in
   lits_exact e2 = false /\ exp_sem re_toy float_toy true e2 rows = true /\ exp_sem re_toy float_toy false e2 rows = false.
 Proof. vm_compute. repeat split; reflexivity. Qed.
+
+(* portions_fold_topk: a run over two portions, limit 2.  Portion 0 holds pt1 (time 5) and pt3 (time 7), portion 1
+   holds pt2 (time 9); after portion 0 the lower bound rises to 5; the second statement sees t2 and the two cached
+   winners and returns [t2; t3]. *)
+Definition pt1 := {| tid := 1; tkey := 5 |}.
+Definition pt2 := {| tid := 2; tkey := 9 |}.
+Definition pt3 := {| tid := 4; tkey := 7 |}.
+Definition pall := [pt1; pt2; pt3].
+Example portions_run : reach pall (fun i => if N.eqb i 2 then 1%N else 0%N) 2 0 2 [pt2; pt3] 7.
+Proof.
+  assert (Hneq : pt1 <> pt3 /\ pt3 <> pt1 /\ pt2 <> pt3 /\ pt3 <> pt2 /\ pt1 <> pt2 /\ pt2 <> pt1) by (repeat split; discriminate).
+  change 2%N with (0 + 1 + 1)%N.
+  change 7%Z with (next_from 2 [pt2; pt3] 5).
+  eapply (reachS _ _ _ _ (0 + 1)%N [pt3; pt1] 5 [pt2; pt3]).
+  - change 5%Z with (next_from 2 [pt3; pt1] 0). eapply reachS; [constructor| |].
+    + repeat split.
+      * repeat constructor; cbn; intuition congruence.
+      * intros x [<-|[<-|[]]]; cbn; tauto.
+      * intros x y Hx Hn Hy. cbn in Hx. destruct Hx as [<-|[<-|[]]]; exfalso; apply Hn; cbn; tauto.
+    + repeat constructor; cbn; lia.
+  - repeat split.
+    + repeat constructor; cbn; intuition congruence.
+    + intros x [<-|[<-|[]]]; cbn; tauto.
+    + intros x y Hx Hn Hy. cbn in Hx. destruct Hx as [<-|[<-|[<-|[]]]].
+      * destruct Hy as [<-|[<-|[]]]; cbn; lia.
+      * exfalso; apply Hn; cbn; tauto.
+      * exfalso; apply Hn; cbn; tauto.
+  - repeat constructor; cbn; lia.
+Qed.
